@@ -4,6 +4,7 @@
 
 #include <pthread.h>
 #include "lib.h"
+#include "ops.h"
 
 typedef __float128 q_t;
 
@@ -74,6 +75,16 @@ static void gen_ratios(rng_t* r, uint64_t n, int maxe, double* v, unsigned varia
 }
 
 // (every power of two is a legal divisor: the extremes check that no intermediate constant is kept in a narrower type)
+// rep bit 12: the distance between input and output modulo the page size is swept: bits 16..21 select it (-256 .. +248 bytes in
+// steps of 8), the input's own page offset rotates with the low bits
+static void sweep_offsets(unsigned rep) {
+  if (!(rep & 0x1000)) return;
+  long offs[2];
+  offs[0] = 2048 + 8 * (long)(rep & 7) + 64 * (long)((rep >> 3) & 1);
+  offs[1] = offs[0] + 8 * ((long)((rep >> 16) & 63) - 32);
+  gb_force_page_offsets(offs, 2);
+  cnt("page_offset_sweep_calls", 1);
+}
 static const int DIV_EXP[] = {-8, -3, -1, 0, 1, 4, 8, 10, 16, 19, 20, 31, 32, 40, -300, -128, -97, -64, 64, 127, 182, 300};
 
 // ---------------------------------------------------------------- reim_from_znx64
@@ -85,6 +96,7 @@ static void case_from_znx64(uint64_t m, int variant /*0 table native,1 table gen
   rng_t* r = crng();
   const uint64_t n = 2 * m;
   gbuf_t gi, go;
+  sweep_offsets(rep);
   int64_t* x = gb_alloc(&gi, n * 8, 8, 8 * (rep % 8), 4096);
   double* out = gb_alloc(&go, n * 8, 8, 8 * ((rep + 3) % 8), 4096);
   gb_prefill(&go, (int)rep, 1);
@@ -138,6 +150,7 @@ static void case_to_znx64_b(uint64_t m, int variant /*0 native table,1 generic t
   const uint64_t n = 2 * m;
   const double d = ldexp(1.0, dexp);
   gbuf_t gi, go;
+  sweep_offsets(rep);
   double* x = gb_alloc(&gi, n * 8, 8, 8 * (rep % 8), 4096);
   int64_t* out = gb_alloc(&go, n * 8, 8, 8 * ((rep + 5) % 8), 4096);
   gb_prefill(&go, (int)rep, 2);
@@ -193,6 +206,7 @@ static void case_to_znx64_sweep(int variant, int e, int dexp, unsigned rep) {
   const double d = ldexp(1.0, dexp);
   const int wide = variant != 3 && e >= 49;
   gbuf_t gi, go;
+  sweep_offsets(rep);
   double* x = gb_alloc(&gi, n * 8, 8, 8 * (rep % 8), 4096);
   int64_t* out = gb_alloc(&go, n * 8, 8, 8 * ((rep + 5) % 8), 4096);
   double* ratio = malloc(n * 8);
@@ -250,6 +264,7 @@ static void case_to_tnx(uint64_t m, int variant /*0 native,1 generic,2 ref,3 avx
   const uint64_t n = 2 * m;
   const double d = ldexp(1.0, dexp);
   gbuf_t gi, go;
+  sweep_offsets(rep);
   double* x = gb_alloc(&gi, n * 8, 8, 8 * (rep % 8), 4096);
   double* out = gb_alloc(&go, n * 8, 8, 8 * ((rep + 1) % 8), 4096);
   gb_prefill(&go, 2, 0);
@@ -298,6 +313,7 @@ static void case_cplx_from(uint64_t m, int torus, int variant /*0 native,1 gener
   if (!case_begin(key, "m=%" PRIu64 " rep=%u", m, rep)) return;
   rng_t* r = crng();
   gbuf_t gi, go;
+  sweep_offsets(rep);
   int32_t* x = gb_alloc(&gi, 2 * m * 4, 8, 8 * (rep % 8), 4096);
   double* out = gb_alloc(&go, 2 * m * 8, 8, 8 * ((rep + 1) % 8), 4096);
   gb_prefill(&go, 2, 0);
@@ -384,6 +400,7 @@ static void case_cplx_to_tnx32(uint64_t m, int variant, unsigned ovh, int dexp, 
   rng_t* r = crng();
   const double d = ldexp(1.0, dexp);
   gbuf_t gi, go;
+  sweep_offsets(rep);
   double* x = gb_alloc(&gi, 2 * m * 8, 8, 8 * (rep % 8), 4096);
   int32_t* out = gb_alloc(&go, 2 * m * 4, 8, 8 * ((rep + 1) % 8), 4096);
   gb_prefill(&go, 1, 0);
@@ -734,6 +751,37 @@ void run_C14(void) {
       case_to_tnx(m, 0, 48, 0, rep);
       case_cplx_to_tnx32(m, 0, 18, 0, rep);
     }
+  // distance between input and output modulo the page size: every multiple of 8 bytes in [-256, +248], arrays larger than a page
+  {
+    static const uint64_t SM[] = {512, 1024, 4096, 64};
+    for (size_t mi = 0; mi < (th ? 4u : 3u); mi++)
+      for (unsigned k = 0; k < 64; k++) {
+        const unsigned rep = 0x1000u | (k << 16) | (k & 7) | ((k >> 3 & 1) << 3);
+        const uint64_t m = SM[mi];
+        if (!th && mi == 2 && (k & 1)) continue;
+        for (int v = 0; v <= 3; v += 3) {
+          case_from_znx64(m, v, rep);
+          case_to_znx64(m, v ? 4 : 0, 1, 3, rep);
+          case_to_znx64(m, v ? 3 : 0, 0, 0, rep);
+          case_to_tnx(m, v, 18, 2, rep);
+          case_cplx_from(m, (int)(k & 1), v, rep);
+          case_cplx_to_tnx32(m, v, 18, 1, rep);
+        }
+      }
+  }
+  // different *_simple conversions side by side in different threads (after each one's own warm-up), constant arguments
+  {
+    static const char* const SC[] = {"cplx_from_znx32_simple", "cplx_from_tnx32_simple", "reim_from_znx64_simple", "reim_to_znx64_simple", "cplx_to_tnx32_simple"};
+    static const uint64_t SN[] = {16, 128, 2048, 4};
+    for (size_t ni = 0; ni < ARRAY_LEN(SN); ni++)
+      for (unsigned rep = 0; rep < (th ? 8u : 2u); rep++) {
+        const char* names[4];
+        const int nj = rep & 1 ? 4 : 2;
+        for (int j = 0; j < nj; j++) names[j] = SC[(rep / 2 + (unsigned)j) % ARRAY_LEN(SC)];
+        if (!(rep & 1)) { names[0] = SC[0]; names[1] = SC[1]; }
+        ops_steady_case("simple conversions", names, nj, SN[ni], DISP_NATIVE, 20, SN[ni] <= 128 ? 400 : 100, 40, (int)(rep >> 1 & 1), rep, "concurrent_simple_conversion_calls");
+      }
+  }
   // every m on every conversion; rep 30: both buffers misaligned, 7: output on a 64-byte boundary, 8: input on one
   static const unsigned AREP[] = {30, 7, 8};
   for (size_t ar = 0; ar < ARRAY_LEN(AREP); ar++)
